@@ -162,6 +162,27 @@ func ruleA1BSI(p *Prog) *RuleResult {
 				}
 				wit = append(wit, strings.Split(s.mutTab[tab], " -> ")...)
 			}
+			// a mutator that touches the value planes keeps the existence bitmap in step: it writes eBM as well
+			// (set / increment / add / or / retain / clear all change which columns exist or re-encode both)
+			if bsiMutators[f.Name()] {
+				planes, ebm := false, false
+				for _, tab := range tabs {
+					if strings.Contains(tab, "P0.bA") {
+						planes = true
+					}
+					if strings.Contains(tab, "P0.eBM") {
+						ebm = true
+					}
+				}
+				if planes {
+					ce := fname(f) + "|existence bitmap updated"
+					if ebm {
+						res.ok(ce, p.pos(f.Pos()), "writes the planes and the existence bitmap")
+					} else {
+						res.bad(ce, p.pos(f.Pos()), "the mutator writes value planes but never the existence bitmap: columns it creates read as absent (and a later SetValue takes its 'column is new' shortcut on stale plane bits)")
+					}
+				}
+			}
 			c := fname(f) + "|pure"
 			if len(bad) > 0 {
 				res.bad(c, p.pos(f.Pos()), "may change "+strings.Join(bad, ", "), wit...)
